@@ -182,6 +182,9 @@ def emitNode (env : Env) (n : Node) (r : Resolver) : Except Err (Resolver × Lis
         match value with
         | none => .error .runtime
         | some ve =>
+          -- with an explicit suffix `get_opcode_byte` runs (and may refuse the width) before the operand is evaluated
+          if (match size with | some w => (opcodeByte e w).isNone | none => false) then .error (nodeErr "size" info)
+          else
           match getValue env r ve info with
           | .error er => .error er
           | .ok v =>
